@@ -369,7 +369,8 @@ def _order(n: int):
 NAMESPACE_NAMES = ["synth_asign_block_0", "synth_asign_block_1", "loop_region_0", "synth_exit_latch_block_0", "synth_head_block_0",
                    "synth_tail_block_0", "synth_return_block_0", "synth_return_block_1", "head_region_0", "branch_region_0",
                    "tail_region_0", "synth_exit_block_0", "synth_fill_block_0", "synth_asign_block_2", "meta_region_0",
-                   "__scfg_control_var_0__", "synth_head_block_1", "loop_region_1"]
+                   "__scfg_control_var_0__", "synth_head_block_1", "loop_region_1", "synth_asign_block_9", "synth_asign_block_10",
+                   "synth_head_block_9", "synth_head_block_10"]
 
 
 def shared_generator():
@@ -410,6 +411,9 @@ def labelings(n: int, level: str) -> List[tuple]:
                     out.append(("", p, o))
         out.append(("x", ident, ident))
         out.append(("x", rev, rev))
+        # names across a decimal carry (8, 9, 10, 11, ...): textual and numeric order disagree
+        for p in itertools.permutations(ident):
+            out.append(("", tuple(str(8 + x) for x in p), ident))
     elif level in ("ties", "ties1"):
         # names that are pairwise different strings but EQUAL under plausible other sort keys (numeric value / natural order,
         # case folding): a sort by such a key leaves their relative order to whatever order they arrived in
@@ -425,13 +429,15 @@ def labelings(n: int, level: str) -> List[tuple]:
         eo = tuple(i // 2 if i % 2 == 0 else half + i // 2 for i in ident)
         oe = tuple((n // 2) + i // 2 if i % 2 == 0 else i // 2 for i in ident)
         if level == "few":
-            out = [("", rev, ident), ("", ident, rev), ("x", rot, rev), ("", eo, ident)]
+            carry = tuple(str(8 + x) for x in ident)
+            out = [("", rev, ident), ("", ident, rev), ("x", rot, rev), ("", eo, ident), ("", carry, ident),
+                   ("", tuple(reversed(carry)), ident), ("", tuple(str(8 + x) for x in eo), rev)]
         elif level == "eo":
             out = [("", eo, ident)]
         else:
             out = [("", rev, ident), ("", eo, ident), ("", oe, rev)]
     elif level == "one":
-        out = [("x", rev, rev)]
+        out = [("x", rev, rev), ("", tuple(str(8 + x) for x in rev), ident)]
     return out
 
 
